@@ -11,6 +11,10 @@ CHECKS = {
          "Trace_C04.tla contains the tree-level mass matrices of the nine sfermion sectors, three sneutrinos, charginos and neutralinos written from the Lagrangian (D-terms from T3 and Q, GUT-normalised g1, SLHA sign of mu) and validates, with exact products, that every reported mass/mixing pair reconstructs them (Z^T diag(m^2) Z, U^T diag(m) V, N^T diag(m) N), that mixing matrices are unitary, masses non-negative and ordered, Goldstones at index 0 with MZ, MW, the tree-level Higgs identities and chargino/neutralino trace/determinant relations hold, a tachyon is reported exactly for a negative eigenvalue of a monitored sector, and exchanging two generations exchanges the spectra",
          "Higgs-sector matrices are not reconstructed (their soft masses are fixed internally by the tadpole equations): identities only; magnitudes sampled; tolerance 1e-11 of the matrix norm",
          "TLA+ trace validation (Trace_C04.tla: mass matrices transcribed into the spec, exact arithmetic in Dyadic.tla)", "DESIGN 5/C04"),
+ "C05": ("model_checking",
+         "MSSMModel.tla models the conversion as the sequence of steps the code takes (start, each iteration of the two fixed-point fits, stop by convergence / iteration limit / no improvement / NaN, root finder, reset, flag or unflag, final clear_problems) as a function Enabled/Apply over an ordered precision domain; TLC explores all step sequences over 4 precision levels and checks ConvergedOrWarned, WarnOnlyIfNotConverged, LoopBound, FlagsIndependent and termination; two wrong variants violate ConvergedOrWarned.  The guarded hooks of MSSMNoFV_onshell.cpp emit exactly these steps; Trace_C05.tla replays them on the same Enabled/Apply (precisions as exact dyadic numbers), flags any step the model does not allow, and checks at the fit's end that the smuon pole mass is met or the warning set; on the final public observation it checks chargino / bino-like neutralino / sneutrino / right-smuon residuals against the requested precision and the round trip of mu, M1, M2, ml2, me2 and a_mu",
+         "K15 (final spectrum misses the right-smuon pole mass after the last Yukawa update) is a known finding; round trip asserted on the well-conditioned subset; inputs generated from on-shell points",
+         "TLC model checking of MSSMModel.tla + TLA+ trace validation (Trace_C05.tla) replaying hook events on the same machine", "DESIGN 5/C05"),
  "C06": ("exploration",
          "all 2^13 sign patterns are enumerated by TLC (a seeded subset in the quick tier), each concretised with random magnitudes; every function of the three public headers and of the helper headers and every mass is recorded for the original and the flipped point and compared by TLC at relative 1e-9; the discrete sign algebra is an ASSUME of the trace spec",
          "magnitudes are sampled; trusted: TLC, Dyadic.tla, the lossless encoder",
@@ -75,12 +79,12 @@ NA = {}
 
 def main():
     props = [json.loads(l)["id"] for l in open(os.path.join(V, "properties.jsonl"))]
-    hooks_commits = []
+    hooks_commits = ["ca001f5 verification hooks in the DR-bar to on-shell conversion (inactive unless -DGM2CALC_VERIF)"]
     m = {
         "version": 1,
         "setup_cmd": "python3 harness/check.py setup",
         "hooks": {"guard": "GM2CALC_VERIF",
-                  "enable": "checks build /repo's working tree with -DGM2CALC_VERIF in CMAKE_CXX_FLAGS (harness/lib/build.py); all observations use the public API, hook events only add structure",
+                  "enable": "checks build /repo's working tree with -DGM2CALC_VERIF in CMAKE_CXX_FLAGS (harness/lib/build.py); hook events (src/gm2_verif.hpp: GM2CALC_VERIF_EMIT) add the internal steps of the DR-bar to on-shell conversion; every other observation uses the public API",
                   "baseline_off_cmd": "cmake -S /repo -B /repo/_build -G Ninja && cmake --build /repo/_build && ctest --test-dir /repo/_build -j8 --timeout 900",
                   "source_commits": hooks_commits, "add_only": True},
         "engines": [{"name": "tlc-trace", "path": "harness/check.py", "serves_properties": sorted(CHECKS),
